@@ -239,6 +239,20 @@ class Cache:
         with self._files_lock:
             return norm_cased_filename in self._norm_cased_files
 
+    def norm_cased_file_status(self, norm_cased_filename):
+        """Return how far along we are in building the specified file.
+
+        Return ``None`` if we don't have a cache entry for the specified
+        norm-cased filename (as in ``has_norm_cased_file``), ``False``
+        if we have started building the file but haven't finished, and
+        ``True`` if we have finished building it or reused a cached
+        result for it.
+        """
+        with self._files_lock:
+            if norm_cased_filename not in self._norm_cased_files:
+                return None
+            return self._norm_cased_files[norm_cased_filename] is not None
+
     def created_file(self, filename):
         """Return whether we created the specified non-norm-cased file.
 
